@@ -330,7 +330,7 @@ theorem py_negate_matches_contract_secp256k1 (hc : CardEq secp256k1 secp256k1N) 
       Spec.Libsecp.ec_pubkey_negate (pyEcOps secp256k1 secp256k1N secpG) pub :=
   eq_pubkey_negate _ (secp256k1_ec_laws hc) (show secp256k1.p ≤ 2 ^ 256 by decide +kernel) pub
 
--- GOAL (not proved): CardEq secp256k1 secp256k1N  (#E(𝔽_p) = n; by secp256k1_card_of_bound it suffices that #E(𝔽_p) < 2n, which is Hasse's bound — absent from Mathlib)
+-- `CardEq secp256k1 secp256k1N` (#E(𝔽_p) = n) is PROVED in Props/C08Z.lean (`secp256k1_card_eq`, elementary counting — no Hasse bound), and with it `secp256k1_ec_laws_unconditional`.
 
 /-! ### non-vacuity -/
 
